@@ -192,7 +192,7 @@ def _resolve(ref):
 def explore(harness, cfg, workers=None, unit_paths=150, unit_s=15.0, deadline_s=None, opts=None, progress=None):
     """Explore all paths of harness(cfg).  Returns (Stats, exhausted: bool)."""
     opts = opts or {}
-    workers = workers or min(16, os.cpu_count() or 1)
+    workers = workers or int(os.environ.get('SYMX_WORKERS', 0)) or min(16, os.cpu_count() or 1)
     total = Stats()
     t0 = time.time()
     pending = [[]]
